@@ -20,6 +20,14 @@
 //!        ops (';' separated) on one client DatagramPacketCodec:
 //!        D<hex>            a datagram from the server: ITEM <payload> <addr> | NONE | ERR <class> | PANIC
 //!        E<addr>,<payload> encode: OK p=<packet id found on the wire by a server-side decode> (2022) | OK (legacy)
+//!        P<hex id>         place the session's packet counter (hook)
+//!        R<ssid>,<pid>,<tag>,<x>  a well-formed server datagram (payload tag tag, from 10.0.0.<tag>:53) whose client session id is
+//!                          THIS session's id xor <x> (hex): x = 0 is addressed to this session, anything else to another one;
+//!                          an optional fifth field damages it in transit: `t` = last byte lost, `f<n>` = bit n (mod length) flipped,
+//!                          or states what must happen to it: `=i` it is delivered, `=n` it is dropped (ORACLE-BAD otherwise).
+//!                          When a script has R ops the result has a leading oracle field (ORACLE-OK | ORACLE-BAD ...): a datagram
+//!                          addressed to another client session must not be delivered (2022 kinds).
+//! a trailing `@n` argument of a `dec` case adds the same leading oracle field: the datagram must not be accepted.
 use std::io::Write;
 use std::sync::Arc;
 
@@ -106,7 +114,11 @@ fn run<const N: usize>(kind: CipherKind, is22: bool, f: &[&str]) -> Vec<String> 
             octo_squirrel::verif_clock::set(Some(f[7].parse().unwrap()));
             let r = decode_one::<N>(kind, mode_of(f[3]), &key, &ikeys, mk_um(f[6]), &unhex(f[8]));
             octo_squirrel::verif_clock::set(None);
-            vec![r]
+            if f.get(9) == Some(&"@n") {
+                vec![if r.starts_with("OK ") { "ORACLE-BAD accepted what must be refused".into() } else { "ORACLE-OK".into() }, r]
+            } else {
+                vec![r]
+            }
         }
         "rt" => {
             // rt kind encmode ekey eikeys euser dkey dusers xuser now csid ssid pid addr payload
@@ -161,6 +173,20 @@ fn run<const N: usize>(kind: CipherKind, is22: bool, f: &[&str]) -> Vec<String> 
             };
             let mut out = Vec::new();
             let mut dead = false;
+            // scripts with R ops: learn this session's (random) client session id from a probe datagram, then put the counter back
+            let has_r = f[7].split(';').any(|op| op.starts_with('R'));
+            let mut own_csid: u64 = 0;
+            let mut oracle: Option<String> = None;
+            if has_r && is22 {
+                let mut dst = BytesMut::new();
+                let _ = codec.encode((BytesMut::from(&b"probe"[..]), parse_addr("4:7f000001:9")), &mut dst);
+                let sc: SessionCodec<N> = SessionCodec::new(Context::new(Mode::Server, sum.clone(), &skey, &[]), AEADCipherCodec::new(kind));
+                match catch(|| sc.decode(&mut dst)) {
+                    Ok(Ok(Some((_, _, s)))) => own_csid = s.client_session_id,
+                    _ => oracle = Some("ORACLE-BAD probe datagram unreadable".into()),
+                }
+                codec.verif_set_packet_id(0);
+            }
             for op in f[7].split(';') {
                 if op.is_empty() {
                     continue;
@@ -170,7 +196,49 @@ fn run<const N: usize>(kind: CipherKind, is22: bool, f: &[&str]) -> Vec<String> 
                     continue;
                 }
                 let (c, arg) = op.split_at(1);
-                if c == "P" {
+                if c == "R" {
+                    let a: Vec<&str> = arg.split(',').collect();
+                    let (ssid, pid, tag, x) = (u64x(a[0]), u64x(a[1]), u8::from_str_radix(a[2], 16).unwrap(), u64x(a[3]));
+                    let (_, _, _, cipher) = kind_of(f[2]);
+                    let tail = [&[1u8, 10, 0, 0, tag, 0, 53][..], &[tag, tag][..]].concat();
+                    let pkt = if is22 {
+                        UCraft { kname: f[2], cipher }.packet(&key, &key, &[], ssid, pid, &UCraft::body(1, f[6].parse::<i64>().unwrap() as u64, Some(own_csid ^ x), 0, &[], &tail), &[0u8; 24])
+                    } else {
+                        legacy_packet(cipher, &key, &[0u8; N], &tail)
+                    };
+                    let mut pkt = pkt;
+                    match a.get(4).copied() {
+                        // damaged in transit: the last byte lost / one bit flipped
+                        Some("t") => {
+                            pkt.pop();
+                        }
+                        Some(d) if d.starts_with('f') => {
+                            let bit = d[1..].parse::<usize>().unwrap() % (pkt.len() * 8);
+                            pkt[bit / 8] ^= 1 << (bit % 8);
+                        }
+                        _ => {}
+                    }
+                    let mut src = BytesMut::from(&pkt[..]);
+                    let r = match catch(|| codec.decode(&mut src)) {
+                        Ok(Ok(None)) => "NONE".to_string(),
+                        Ok(Ok(Some((p, a)))) => format!("ITEM {} {}", hex(&p), addr_str(&a)),
+                        Ok(Err(e)) => format!("ERR {}", classify(&e)),
+                        Err(_) => {
+                            dead = true;
+                            "PANIC".into()
+                        }
+                    };
+                    if is22 && x != 0 && r.starts_with("ITEM") && oracle.is_none() {
+                        oracle = Some(format!("ORACLE-BAD delivered a datagram addressed to client session {:x} (own {:x})", own_csid ^ x, own_csid));
+                    }
+                    // direct expectation of the script's author (set-based reference, see `WinRef`): `=i` delivered, `=n` dropped
+                    match a.get(4).copied() {
+                        Some("=i") if !r.starts_with("ITEM") && oracle.is_none() => oracle = Some(format!("ORACLE-BAD server session {:x} packet {:x}: expected to be delivered, got {}", ssid, pid, r)),
+                        Some("=n") if r != "NONE" && oracle.is_none() => oracle = Some(format!("ORACLE-BAD server session {:x} packet {:x}: expected to be dropped, got {}", ssid, pid, r)),
+                        _ => {}
+                    }
+                    out.push(r);
+                } else if c == "P" {
                     // place the session's packet counter (hook): reaches the end of the 64-bit id space
                     codec.verif_set_packet_id(u64::from_str_radix(arg, 16).unwrap());
                     out.push("SET".into());
@@ -214,7 +282,7 @@ fn run<const N: usize>(kind: CipherKind, is22: bool, f: &[&str]) -> Vec<String> 
                 }
             }
             octo_squirrel::verif_clock::set(None);
-            vec![out.join(" | ")]
+            if has_r { vec![oracle.unwrap_or("ORACLE-OK".into()), out.join(" | ")] } else { vec![out.join(" | ")] }
         }
         _ => vec!["BAD-SSUDP-CASE".into()],
     }
@@ -279,7 +347,7 @@ impl UCraft<'_> {
     }
 }
 /// legacy: salt ‖ seal(hkdf_sha1(key, salt, "ss-subkey"), nonce 0, plaintext)
-fn legacy_packet(cipher: &str, key: &[u8], salt: &[u8], pt: &[u8]) -> Vec<u8> {
+pub fn legacy_packet(cipher: &str, key: &[u8], salt: &[u8], pt: &[u8]) -> Vec<u8> {
     let sk = prims::hkdf_sha1(key, salt, b"ss-subkey", salt.len()).unwrap();
     let mut out = salt.to_vec();
     out.extend_from_slice(&prims::aead(cipher, true, &sk[..if cipher == "aes128gcm" { 16 } else { 32 }], &[0u8; 12], &[], pt).unwrap());
@@ -295,9 +363,45 @@ struct Cfg {
     xuser: String,    // user hash the server must find
 }
 
+/// one `dec` case without a direct expectation (the model decides)
 fn dec_case(w: &mut dyn Write, kname: &str, mode: &str, key: &[u8], ikeys: &str, users: &str, now: i64, dgram: &[u8]) {
-    let a: Vec<String> = vec!["ssudp".into(), "dec".into(), kname.into(), mode.into(), hex(key), ikeys.into(), users.into(), now.to_string(), hex(dgram)];
+    dec_case_m(w, kname, mode, key, ikeys, users, now, dgram, false)
+}
+/// `refuse`: the datagram must not be accepted (tampered, foreign key, stale, reflected ...): direct oracle `@n`
+#[allow(clippy::too_many_arguments)]
+pub fn dec_case_m(w: &mut dyn Write, kname: &str, mode: &str, key: &[u8], ikeys: &str, users: &str, now: i64, dgram: &[u8], refuse: bool) {
+    let mut a: Vec<String> = vec!["ssudp".into(), "dec".into(), kname.into(), mode.into(), hex(key), ikeys.into(), users.into(), now.to_string(), hex(dgram)];
+    if refuse {
+        a.push("@n".into());
+    }
     crate::emit_case(w, &a, exec);
+}
+fn dec_refuse(w: &mut dyn Write, kname: &str, mode: &str, key: &[u8], ikeys: &str, users: &str, now: i64, dgram: &[u8]) {
+    dec_case_m(w, kname, mode, key, ikeys, users, now, dgram, true)
+}
+
+/// Independent reference for the client's replay protection: per server session the SET of accepted packet ids, at most four
+/// sessions kept, the one that appeared first makes room.  An id is accepted iff it is below u64::MAX, not in the set and not more
+/// than 8128 behind the highest id of the set.
+#[derive(Default)]
+pub struct WinRef {
+    sessions: Vec<(u64, Vec<u64>)>,
+}
+impl WinRef {
+    pub fn accept(&mut self, ssid: u64, pid: u64) -> bool {
+        if !self.sessions.iter().any(|(s, _)| *s == ssid) {
+            if self.sessions.len() == 4 {
+                self.sessions.remove(0);
+            }
+            self.sessions.push((ssid, Vec::new()));
+        }
+        let set = &mut self.sessions.iter_mut().find(|(s, _)| *s == ssid).unwrap().1;
+        let ok = pid < u64::MAX && !set.contains(&pid) && set.iter().all(|&j| j <= pid.saturating_add(8128));
+        if ok {
+            set.push(pid);
+        }
+        ok
+    }
 }
 
 pub fn generate(w: &mut dyn Write, seed: u64, thorough: bool) {
@@ -366,58 +470,59 @@ pub fn generate(w: &mut dyn Write, seed: u64, thorough: bool) {
                     // every truncation
                     let step = if thorough { 1 } else { 7 };
                     for cut in (0..wire.len()).step_by(step) {
-                        dec_case(w, kname, mode, key, "-", users, now, &wire[..cut]);
+                        dec_refuse(w, kname, mode, key, "-", users, now, &wire[..cut]);
                     }
                     // the last few truncations always (tag boundary)
                     for cut in wire.len().saturating_sub(3)..wire.len() {
-                        dec_case(w, kname, mode, key, "-", users, now, &wire[..cut]);
+                        dec_refuse(w, kname, mode, key, "-", users, now, &wire[..cut]);
                     }
                     // one byte appended
                     let mut longer = wire.clone();
                     longer.push(0);
-                    dec_case(w, kname, mode, key, "-", users, now, &longer);
+                    dec_refuse(w, kname, mode, key, "-", users, now, &longer);
                     // single-bit flips (sampled)
                     let flips = if thorough { 200 } else { 30 };
                     for _ in 0..flips {
                         let bit = rng.below((wire.len() * 8) as u64) as usize;
                         let mut m = wire.clone();
                         m[bit / 8] ^= 1 << (bit % 8);
-                        dec_case(w, kname, mode, key, "-", users, now, &m);
+                        dec_refuse(w, kname, mode, key, "-", users, now, &m);
                     }
                     // every bit of the first 80 bytes (headers) in thorough mode
                     if thorough && si == 0 {
                         for bit in 0..(wire.len().min(80) * 8) {
                             let mut m = wire.clone();
                             m[bit / 8] ^= 1 << (bit % 8);
-                            dec_case(w, kname, mode, key, "-", users, now, &m);
+                            dec_refuse(w, kname, mode, key, "-", users, now, &m);
                         }
                     }
                     // a wrong key
-                    dec_case(w, kname, mode, &rng.bytes(n), "-", users, now, wire);
-                    // a clock 31 s / 30 s away from the packet's timestamp
+                    dec_refuse(w, kname, mode, &rng.bytes(n), "-", users, now, wire);
+                    // a clock 31 s / 30 s away from the packet's timestamp (legacy packets carry no time)
                     for dt in [-31i64, -30, 30, 31] {
-                        dec_case(w, kname, mode, key, "-", users, now + dt, wire);
+                        dec_case_m(w, kname, mode, key, "-", users, now + dt, wire, is22 && dt.abs() > 30);
                     }
                 }
-                // reflection: a client packet fed to a client, a server packet fed to a server
-                dec_case(w, kname, "client", &cfg.ckey, "-", "none", now, wc);
-                dec_case(w, kname, "server", &cfg.skey, "-", &cfg.users, now, ws);
+                // reflection: a client packet fed to a client, a server packet fed to a server (legacy packets have no direction)
+                dec_case_m(w, kname, "client", &cfg.ckey, "-", "none", now, wc, is22);
+                dec_case_m(w, kname, "server", &cfg.skey, "-", &cfg.users, now, ws, is22);
                 // cross-session splices: head of one datagram, tail of another
                 if let Some((wc2, ws2)) = samples.get((si + 1) % samples.len()) {
                     let cutc = if aes22 { 16 } else if is22 { 24 } else { n };
+                    let distinct = samples.len() > 1; // with a single sample the "splice" is the datagram itself
                     for (mode, key, users, x, y) in [("server", &cfg.skey, cfg.users.as_str(), wc, wc2), ("client", &cfg.ckey, "none", ws, ws2)] {
                         let mut m = x[..cutc.min(x.len())].to_vec();
                         m.extend_from_slice(&y[cutc.min(y.len())..]);
-                        dec_case(w, kname, mode, key, "-", users, now, &m);
+                        dec_case_m(w, kname, mode, key, "-", users, now, &m, distinct);
                         if aes22 && cfg.xuser != "-" && mode == "server" {
                             // header + identity header of one packet, body of the other
                             let mut m = x[..32].to_vec();
                             m.extend_from_slice(&y[32..]);
-                            dec_case(w, kname, mode, key, "-", users, now, &m);
+                            dec_case_m(w, kname, mode, key, "-", users, now, &m, distinct);
                             // identity header swapped alone
                             let mut m = x.to_vec();
                             m[16..32].copy_from_slice(&y[16..32]);
-                            dec_case(w, kname, mode, key, "-", users, now, &m);
+                            dec_case_m(w, kname, mode, key, "-", users, now, &m, distinct);
                         }
                     }
                 }
@@ -442,10 +547,10 @@ pub fn generate(w: &mut dyn Write, seed: u64, thorough: bool) {
                     let ts = (now + dt) as u64;
                     let (sid, pid) = (rng.next(), rng.next());
                     let pc = mk_c(&mut rng, cfg, &UCraft::body(ty, ts, None, 0, &[], &good_tail), sid, pid);
-                    dec_case(w, kname, "server", &cfg.skey, "-", &cfg.users, now, &pc);
+                    dec_case_m(w, kname, "server", &cfg.skey, "-", &cfg.users, now, &pc, ty != 0 || dt.abs() > 30);
                     let c = rng.next();
                     let ps = mk_s(&mut rng, cfg, &UCraft::body(ty, ts, Some(c), 0, &[], &good_tail), sid, pid);
-                    dec_case(w, kname, "client", &cfg.ckey, "-", "none", now, &ps);
+                    dec_case_m(w, kname, "client", &cfg.ckey, "-", "none", now, &ps, ty != 1 || dt.abs() > 30);
                 }
                 // padding: (declared length, actual padding bytes)
                 for (field, actual) in [(0u16, 0usize), (5, 5), (900, 900), (901, 901), (1, 0), (65535, 3), (4, 5), (12, 12), (13, 12), (11, 12)] {
@@ -486,12 +591,12 @@ pub fn generate(w: &mut dyn Write, seed: u64, thorough: bool) {
                     // unknown user
                     let stranger = rng.bytes(n);
                     let p = cr.packet(&cfg.skey, &stranger, &UCraft::eih(&cfg.skey, &stranger, &sidpid), sid, pid, &body, &[]);
-                    dec_case(w, kname, "server", &cfg.skey, "-", &cfg.users, now, &p);
+                    dec_refuse(w, kname, "server", &cfg.skey, "-", &cfg.users, now, &p);
                     // identity of user 2, body under the server key / under user 3's key
                     let p = cr.packet(&cfg.skey, &cfg.skey, &UCraft::eih(&cfg.skey, &cfg.ckey, &sidpid), sid, pid, &body, &[]);
-                    dec_case(w, kname, "server", &cfg.skey, "-", &cfg.users, now, &p);
+                    dec_refuse(w, kname, "server", &cfg.skey, "-", &cfg.users, now, &p);
                     let p = cr.packet(&cfg.skey, &u3, &UCraft::eih(&cfg.skey, &cfg.ckey, &sidpid), sid, pid, &body, &[]);
-                    dec_case(w, kname, "server", &cfg.skey, "-", &cfg.users, now, &p);
+                    dec_refuse(w, kname, "server", &cfg.skey, "-", &cfg.users, now, &p);
                     // each user of the table is found
                     for u in [&u1, &u2, &u3] {
                         let p = cr.packet(&cfg.skey, u, &UCraft::eih(&cfg.skey, u, &sidpid), sid, pid, &body, &[]);
@@ -501,15 +606,15 @@ pub fn generate(w: &mut dyn Write, seed: u64, thorough: bool) {
                     let mut other = sidpid.clone();
                     other[15] ^= 1;
                     let p = cr.packet(&cfg.skey, &cfg.ckey, &UCraft::eih(&cfg.skey, &cfg.ckey, &other), sid, pid, &body, &[]);
-                    dec_case(w, kname, "server", &cfg.skey, "-", &cfg.users, now, &p);
+                    dec_refuse(w, kname, "server", &cfg.skey, "-", &cfg.users, now, &p);
                     // no identity header although the server expects one / an identity header the server does not expect
                     let p = cr.packet(&cfg.skey, &cfg.skey, &[], sid, pid, &body, &[]);
-                    dec_case(w, kname, "server", &cfg.skey, "-", &cfg.users, now, &p);
+                    dec_refuse(w, kname, "server", &cfg.skey, "-", &cfg.users, now, &p);
                     let p = cr.packet(&cfg.skey, &cfg.ckey, &UCraft::eih(&cfg.skey, &cfg.ckey, &sidpid), sid, pid, &body, &[]);
-                    dec_case(w, kname, "server", &cfg.skey, "-", "none", now, &p);
+                    dec_refuse(w, kname, "server", &cfg.skey, "-", "none", now, &p);
                     // a server packet for user 2 read by user 3
                     let ps = cr.packet(&cfg.ckey, &cfg.ckey, &[], sid, pid, &UCraft::body(1, now as u64, Some(7), 0, &[], &good_tail), &[]);
-                    dec_case(w, kname, "client", &u3, "-", "none", now, &ps);
+                    dec_refuse(w, kname, "client", &u3, "-", "none", now, &ps);
                     dec_case(w, kname, "client", &cfg.ckey, "-", "none", now, &ps);
                 }
             } else if ci == 0 {
@@ -526,8 +631,8 @@ pub fn generate(w: &mut dyn Write, seed: u64, thorough: bool) {
             }
             // ---- random bytes of every length 0..=120 ----
             for l in (0..=120usize).step_by(if thorough || ci == 0 { 1 } else { 3 }) {
-                dec_case(w, kname, "server", &cfg.skey, "-", &cfg.users, now, &rng.bytes(l));
-                dec_case(w, kname, "client", &cfg.ckey, "-", "none", now, &rng.bytes(l));
+                dec_refuse(w, kname, "server", &cfg.skey, "-", &cfg.users, now, &rng.bytes(l));
+                dec_refuse(w, kname, "client", &cfg.ckey, "-", "none", now, &rng.bytes(l));
             }
         }
         // ---- a context key of the wrong length (2022 AES kinds: an error return, never a panic) ----
@@ -535,9 +640,9 @@ pub fn generate(w: &mut dyn Write, seed: u64, thorough: bool) {
             for klen in [0usize, 1, 15, 16, 17, 31, 32, 33, 64] {
                 let k = rng.bytes(klen);
                 for l in [0usize, 42, 43, 51, 80] {
-                    dec_case(w, kname, "server", &k, "-", "none", now, &rng.bytes(l));
-                    dec_case(w, kname, "server", &k, "-", &table, now, &rng.bytes(l + 16));
-                    dec_case(w, kname, "client", &k, "-", "none", now, &rng.bytes(l));
+                    dec_refuse(w, kname, "server", &k, "-", "none", now, &rng.bytes(l));
+                    dec_refuse(w, kname, "server", &k, "-", &table, now, &rng.bytes(l + 16));
+                    dec_refuse(w, kname, "client", &k, "-", "none", now, &rng.bytes(l));
                 }
             }
         }
@@ -594,10 +699,21 @@ pub fn generate(w: &mut dyn Write, seed: u64, thorough: bool) {
                 if rp == "0" && i >= scripts.len() {
                     continue;
                 }
+                // only the 2022 edition is replay-protected (the constructors never pair a legacy kind with it): a legacy datagram
+                // carries no session id, so the client-session check of a replay-protected codec would drop every one of them
+                if rp == "1" && !is22 {
+                    continue;
+                }
                 let ssid = rng.next();
                 let mut ops: Vec<String> = Vec::new();
                 for (j, &id) in ids.iter().enumerate() {
-                    ops.push(format!("D{}", hex(&mk(&mut rng, ssid, id, j as u8))));
+                    // replay-protected scripts address the datagram to the session's OWN client session id (op R); the others present
+                    // an independently crafted datagram (client session id 9, random nonce)
+                    if rp == "1" {
+                        ops.push(format!("R{:x},{:x},{:02x},0", ssid, id, j as u8));
+                    } else {
+                        ops.push(format!("D{}", hex(&mk(&mut rng, ssid, id, j as u8))));
+                    }
                     if j == 1 {
                         ops.push("E4:7f000001:80,aabb".into());
                         ops.push("D-".into());
@@ -618,19 +734,65 @@ pub fn generate(w: &mut dyn Write, seed: u64, thorough: bool) {
                 crate::emit_case(w, &e, exec);
             }
         }
-        // replies of two server sessions interleaved (a restarted server, late packets of the old one): the client session has ONE
-        // window; an id accepted once is not accepted again whichever server session a later datagram names
+        // replies of several server sessions on one client session (a restarted server, an association that expired after 300 s idle,
+        // late packets of the old one): the client keeps ONE WINDOW PER SERVER SESSION, the 4 newest (FIFO by first appearance).
+        // Every R op carries the verdict of an independent set-based reference (`WinRef`): `=i` delivered / `=n` dropped.
         if is22 {
-            for k in 0..(if thorough { 12 } else { 3 }) {
-                let (sa, sb) = (rng.next(), rng.next());
-                let seq: Vec<(u64, u64)> = match k {
-                    0 => vec![(sa, 5), (sb, 1), (sa, 5), (sa, 6), (sb, 1), (sb, 7), (sa, 6)],
-                    1 => vec![(sa, 100), (sa, 101), (sb, 1), (sa, 100), (sb, 2), (sa, 101), (sb, 1)],
-                    _ => (0..14).map(|_| (if rng.below(2) == 0 { sa } else { sb }, 1 + rng.below(6))).collect(),
-                };
-                let ops: Vec<String> = seq.iter().enumerate().map(|(j, &(ss, id))| format!("D{}", hex(&mk(&mut rng, ss, id, j as u8)))).collect();
+            let emit_seq = |w: &mut dyn Write, seq: &[(u64, u64)], extra: bool| {
+                let mut wr = WinRef::default();
+                let mut ops: Vec<String> = Vec::new();
+                for (j, &(ss, id)) in seq.iter().enumerate() {
+                    ops.push(format!("R{:x},{:x},{:02x},0,{}", ss, id, j as u8, if wr.accept(ss, id) { "=i" } else { "=n" }));
+                    if extra && j == 2 {
+                        ops.push("E4:7f000001:80,aabb".into());
+                        ops.push("D-".into());
+                    }
+                }
                 let a: Vec<String> = vec!["ssudp".into(), "dg".into(), kname.into(), hex(&skey), "-".into(), "1".into(), now.to_string(), ops.join(";")];
                 crate::emit_case(w, &a, exec);
+            };
+            let s: Vec<u64> = (0..8).map(|_| rng.next()).collect();
+            let fixed: Vec<Vec<(u64, u64)>> = vec![
+                // two sessions interleaved, duplicates in each
+                vec![(s[0], 5), (s[1], 1), (s[0], 5), (s[0], 6), (s[1], 1), (s[1], 7), (s[0], 6)],
+                vec![(s[0], 100), (s[0], 101), (s[1], 1), (s[0], 100), (s[1], 2), (s[0], 101), (s[1], 1)],
+                // ids 1..5 of a session, then the server starts a new session and numbers from 1 again; late packets of the old session
+                // after the new one started are judged by the OLD session's window
+                vec![(s[0], 1), (s[0], 2), (s[0], 3), (s[0], 4), (s[0], 5), (s[1], 1), (s[1], 2), (s[0], 5), (s[0], 6), (s[1], 1), (s[0], 3), (s[0], 7), (s[1], 3)],
+                vec![(s[0], 1), (s[0], 2), (s[0], 4), (s[0], 5), (s[1], 1), (s[0], 3), (s[1], 1), (s[0], 3), (s[1], 5), (s[0], 8), (s[1], 4)],
+                // window edges of two sessions, interleaved
+                vec![(s[0], 10000), (s[1], 1), (s[0], 10000 - W), (s[0], 10000 - W - 1), (s[1], W + 2), (s[1], 1), (s[1], 2), (s[0], 9999), (s[1], 3)],
+                // four sessions: all held
+                vec![(s[0], 1), (s[1], 1), (s[2], 1), (s[3], 1), (s[0], 1), (s[1], 1), (s[2], 1), (s[3], 1), (s[0], 2), (s[3], 2)],
+                // five sessions: the fifth displaces the first, whose id is then accepted again (and displaces the second) ...
+                vec![(s[0], 1), (s[1], 1), (s[2], 1), (s[3], 1), (s[0], 1), (s[4], 1), (s[0], 1), (s[1], 1), (s[3], 1), (s[4], 1), (s[2], 1), (s[0], 1)],
+                // six sessions, two ids each, then replays in first-seen order and in reverse
+                vec![(s[0], 1), (s[0], 2), (s[1], 1), (s[1], 2), (s[2], 1), (s[2], 2), (s[3], 1), (s[3], 2), (s[4], 1), (s[4], 2), (s[5], 1), (s[5], 2),
+                     (s[2], 1), (s[3], 2), (s[4], 1), (s[5], 2), (s[0], 1), (s[1], 2), (s[5], 1), (s[4], 2), (s[3], 1), (s[2], 2)],
+                // a session that is seen again while held keeps its place in the queue (first appearance counts, not last use)
+                vec![(s[0], 1), (s[1], 1), (s[2], 1), (s[3], 1), (s[0], 2), (s[0], 3), (s[4], 1), (s[0], 2), (s[1], 1)],
+                // a refused first packet (id u64::MAX) still opens a window and displaces the oldest
+                vec![(s[0], 1), (s[1], 1), (s[2], 1), (s[3], 1), (s[4], u64::MAX), (s[0], 1), (s[4], 1), (s[4], u64::MAX - 1), (s[1], 1)],
+                // server session id 0 and u64::MAX are ids like any other
+                vec![(0, 1), (u64::MAX, 1), (0, 1), (u64::MAX, 1), (0, 2), (1, 1), (2, 1), (3, 1), (0, 1), (u64::MAX, 1)],
+            ];
+            for (k, seq) in fixed.iter().enumerate() {
+                emit_seq(w, seq, k % 2 == 0);
+            }
+            for k in 0..(if thorough { 40 } else { 10 }) {
+                let nsess = 2 + (k % 6) as u64; // 2..=7 server sessions
+                let len = rng.range(14, if thorough { 60 } else { 36 }) as usize;
+                let mut seen: u64 = 1; // sessions appear gradually: a new one with probability 1/4
+                let seq: Vec<(u64, u64)> = (0..len)
+                    .map(|_| {
+                        if seen < nsess && rng.below(4) == 0 {
+                            seen += 1;
+                        }
+                        let which = if rng.below(3) == 0 { seen - 1 } else { rng.below(seen) };
+                        (s[which as usize], 1 + rng.below(6))
+                    })
+                    .collect();
+                emit_seq(w, &seq, k % 3 == 0);
             }
         }
         // the end of the packet id space: the last ids are used once each, then the session refuses to send (no wrap-around to ids already used)
@@ -643,4 +805,6 @@ pub fn generate(w: &mut dyn Write, seed: u64, thorough: bool) {
             crate::emit_case(w, &a, exec);
         }
     }
+    // dimensions added by the audit of seeded/audit/aud-sst.md (own Rng stream)
+    crate::aud_ssudp::generate(w, seed, thorough);
 }
